@@ -102,6 +102,8 @@ func (l repoLayout) configText(e string, c int) []byte {
 	case "relative":
 		m["validity"] = map[string]any{"duration": "10y"}
 	case "manip":
+		// an end date without a start date (the start is the time of the run) and a manipulation
+		m["validity"] = map[string]any{"until": "2150-06-15"}
 		m["manipulations"] = map[string]any{".version": 2}
 	}
 	b, _ := json.MarshalIndent(m, "", "  ")
